@@ -102,7 +102,10 @@ def walker(path):
     tab = json.load(open(path))
     fails, n = [], 0
     state = {}
-    random.choice = lambda seq: seq[state["row"]]
+    def choice(seq):
+        state["rows"] = len(seq)
+        return seq[state["row"]]
+    random.choice = choice
     random.uniform = lambda a, b: state["w"]
     try:
         for ent in tab["vectors"]:
@@ -117,7 +120,9 @@ def walker(path):
                     continue
                 if wk.total_rate != float(ent["total"]) * scale:
                     fails.append(dict(what="Walker.total_rate", v=v, got=wk.total_rate, want=ent["total"] * scale))
-                rows = len(wk._table)
+                state["row"], state["w"] = 0, 0.5 * scale
+                wk.sample_cell()                                   # learn the number of table rows from the first draw
+                rows = state["rows"]
                 mass = [0] * nn
                 zero_hit = []
                 for r in range(rows):
@@ -128,6 +133,9 @@ def walker(path):
                         mass[got[1] - 1] += 1
                         if v[got[1] - 1] == 0:
                             zero_hit.append((r, j))
+                if wk.total_rate != float(ent["total"]) * scale:
+                    fails.append(dict(what="Walker.total_rate after cells were sampled", v=v, got=wk.total_rate,
+                                      want=ent["total"] * scale))
                 # probability of cell c = mass[c] / (rows * mean); the model (CellProbability) says n*rate[c] / (n * mean)
                 if rows != nn or mass != ent["mass"]:
                     fails.append(dict(what="Walker cell probabilities differ from Walker.tla", v=v, scale=scale, rows=rows,
